@@ -237,7 +237,7 @@ def codepoint_docs(s, rng):
         j = rng.choice(js)
         units[j][1] = units[j][1] + c
     out.append({"text": "".join(u[1] + u[2] for u in units), "expect": "reject",
-                "origin": f"{s.origin} codepoint U+{ord(c):04X} in {where}", "key": "codepoint"})
+                "origin": f"{s.origin} codepoint U+{ord(c):04X} in {where}", "key": "codepoint", "cp": c})
     return out
 
 
@@ -390,12 +390,70 @@ def supervised(doc, timeout=900):
     return out
 
 
+def directed_c14_docs(sents, tier):
+    """inputs aimed at the places where offsets are computed: degenerate texts, ends of input after a
+    multi-byte character, non-ASCII string literals, and declarations that clash inside one scope"""
+    docs = []
+
+    def add(text, origin, resolve=False):
+        docs.append({"text": text, "expect": "any", "origin": origin, "resolve": resolve, "key": "directed", "kf": []})
+
+    for t in ["", " ", "\n", "﻿", "//", "// é", "/*", "/* é", "/* é */", '"', '"é', "package", "package a:b",
+              "package a:b;", "package a:b; // é", "package a:b;\né", "é", "€", "\U0001F600", "package a:b targets",
+              "package a:b;\nlet x = \"é", "package a:b;\nexport x as \"é\";", "package a:b;\nexport x as \"€\U0001F600\""]:
+        add(t, f"degenerate {t!r}", resolve=True)
+    step = 40 if tier == "quick" else 8
+    for s in sents[::step]:
+        acc = ""
+        for u in s.units:
+            acc += u[1] + u[2]
+            for tail in (" // é", " /* € */", " é", "\"é"):
+                add(acc + tail, f"{s.origin} cut after {len(acc)} bytes + {tail!r}")
+        # string literals with characters of 2, 3 and 4 bytes
+        units = [list(u) for u in s.units]
+        js = [j for j, u in enumerate(units) if u[0] == ["STRING"]]
+        for j in js[:2]:
+            for content in ("é", "a€b", "\U0001F600x"):
+                units2 = [list(u) for u in units]
+                units2[j][1] = '"' + content + '"'
+                add("".join(u[1] + u[2] for u in units2), f"{s.origin} string literal {content!r}", resolve=True)
+    # two declarations of one name in one scope, every pair of declaration forms
+    idecl = {"func": "f: func();", "alias": "type f = u32;", "record": "record f { a: u32 }", "variant": "variant f { a }",
+             "enum": "enum f { a }", "flags": "flags f { a }", "resource": "resource f;", "use": "use other.{f};"}
+    for k1, d1 in idecl.items():
+        for k2, d2 in idecl.items():
+            add(f"package a:b;\ninterface other {{ type f = u32; }}\ninterface i {{\n  {d1}\n  {d2}\n}}\n", f"interface scope: {k1} then {k2}", resolve=True)
+    wdecl = {"import-func": "import f: func();", "export-func": "export f: func();", "import-iface": "import f: interface { };",
+             "export-iface": "export f: interface { };", "use": "use other.{f};", "alias": "type f = u32;", "record": "record f { a: u32 }",
+             "resource": "resource f;", "import-path": "import other;", "include": "include w0;"}
+    for k1, d1 in wdecl.items():
+        for k2, d2 in wdecl.items():
+            add(f"package a:b;\ninterface other {{ type f = u32; }}\nworld w0 {{ import f: func(); }}\nworld w {{\n  {d1}\n  {d2}\n}}\n",
+                f"world scope: {k1} then {k2}", resolve=True)
+    tdecl = {"alias": "type f = u32;", "record": "record f { a: u32 }", "interface": "interface f { }", "world": "world f { }",
+             "import": "import f: func();", "let": "let f = f;", "export": "export f as \"f\";"}
+    for k1, d1 in tdecl.items():
+        for k2, d2 in tdecl.items():
+            add(f"package a:b;\n{d1}\n{d2}\n", f"root scope: {k1} then {k2}", resolve=True)
+    return docs
+
+
 def run_c14(tier, report):
     """fault enumeration: token/code-point mutants (no panic, spans inside the source), pump points in
     supervised workers, and the package fault space of every shipped fixture"""
     docs, stats, sents = build_docs(tier)
     for d in docs:
         d["resolve"] = d.get("expect") == "accept" and d.get("key") is None and d["id"] % 4 == 0
+    # the same mutants behind a first line of multi-byte characters: byte offsets and character
+    # indices differ from there on
+    for d in list(docs):
+        if d.get("key") in ("mutant", "codepoint") and d["id"] % 2 == 0:
+            docs.append(dict(d, id=len(docs), text="// é€\U0001F600\n" + d["text"], origin=d["origin"] + " after a multi-byte comment line"))
+    directed = directed_c14_docs(sents, tier)
+    for d in directed:
+        d["id"] = len(docs)
+        docs.append(d)
+    stats["directed_docs"] = len(directed)
     for p in repo_wac_files():
         with open(p) as fh:
             docs.append({"id": len(docs), "text": fh.read(), "expect": "any", "origin": os.path.relpath(p, REPO), "resolve": True})
@@ -440,7 +498,15 @@ def run_c14(tier, report):
                 fsum = v
             else:
                 report.add_findings([v], "front-faultcheck")
+    # the program space of the WAC evaluator (spec/Wac.tla) resolved and encoded against real packages,
+    # among them one whose import names have the url / locked-dep forms: no panic anywhere
+    from . import wac as wacmod
+    from .common import HARNESS, pipe_gz_to
+    wpath, _ = wacmod.artefacts("quick")
+    f2, s2 = pipe_gz_to([hbin("wacreplay"), "--data", os.path.join(HARNESS, "data")], [wpath], timeout=7200)
+    report.add_findings([dict(f, kf=[]) for f in f2 if f["class"] == "panic"], "wacreplay-panics")
     cov = report.coverage
+    cov["programs_resolved_against_packages"] = s2["programs"]
     cov["evaluations"] = summary["docs"] + pumped + (fsum or {}).get("cases", 0)
     cov["distinct_nontrivial"] = stats["mutants"] + stats["codepoint_docs"] + pumped + (fsum or {}).get("cases", 0)
     cov["documents"] = dict(stats, parsed=summary["docs"], accepted=summary["accepted"], rejected=summary["rejected"])
